@@ -225,11 +225,30 @@ var c09ActivityFields = []string{"Actor", "Object", "Target", "Result", "Origin"
 // two distinguishable non-zero values for a field of the given Go type
 var c09NlvCtr, c09FieldCtr int
 
+var c09ItemsCtr int
+
 func c09TwoValues(g *Gen, t reflect.Type) (reflect.Value, reflect.Value) {
 	ca := g.Intn(len(c09IDClasses))
 	cb := (ca + 1 + g.Intn(len(c09IDClasses)-1)) % len(c09IDClasses)
 	switch {
 	case t == tItems:
+		c09ItemsCtr++
+		switch c09ItemsCtr % 6 {
+		case 3: // same length, only the FIRST of two members differs
+			cc := (cb + 1) % len(c09IDClasses)
+			if cc == ca {
+				cc = (cc + 1) % len(c09IDClasses)
+			}
+			last := c09ID(g, cc)
+			return reflect.ValueOf(ap.ItemCollection{c09ID(g, ca), last}), reflect.ValueOf(ap.ItemCollection{c09ID(g, cb), last})
+		case 4: // three members, only the middle one differs
+			cc := (cb + 1) % len(c09IDClasses)
+			if cc == ca {
+				cc = (cc + 1) % len(c09IDClasses)
+			}
+			first, last := c09ID(g, cc), &ap.Object{ID: "https://example.com/last-member", Type: ap.NoteType}
+			return reflect.ValueOf(ap.ItemCollection{first, c09ID(g, ca), last}), reflect.ValueOf(ap.ItemCollection{first, c09ID(g, cb), last})
+		}
 		switch g.Intn(3) {
 		case 0: // different membership, same length
 			return reflect.ValueOf(ap.ItemCollection{c09ID(g, ca)}), reflect.ValueOf(ap.ItemCollection{c09ID(g, cb)})
